@@ -31,15 +31,30 @@ VERIF = os.path.dirname(os.path.dirname(os.path.dirname(os.path.abspath(__file__
 def gen(seed, idx, tier):
     rnd = substream(seed, idx, "c09")
     screening = rnd.random() < 0.7
-    scn = scen.gen_physics(
-        rnd,
-        screening=screening,
-        steps=(3, 12),
-        dt_choices=[1e-3, 0.01, 0.05],
-        n_terminals=rnd.choice([0, 2, 3, 4, 4]),
-        field_kinds=("const", "ramp", "pw", "sin"),
-        size=rnd.choice(["small", "medium"]),
-    )
+    large = rnd.random() < 0.12
+    if large:
+        # a mesh of 500+ sites with screening: blocking / reduction strategies of the parallel
+        # kernel that only switch on for large problems
+        scn = scen.gen_physics(rnd, screening=True, steps=(2, 3), dt_choices=[0.01], n_terminals=0, n_probes=0, n_holes=rnd.choice([0, 1]), field_kinds=("const",), eps_kinds=("none",), size="large", adaptive=False, therm=False)
+        scn["options"]["screening_tolerance"] = 1e-2
+        scn["options"]["max_iterations_per_step"] = 200
+        lay = scn["device"]["layer"]
+        lay["lam"] = scen.r3(lay["xi"] * 8)  # weak screening: the Polyak iteration converges in a few iterations
+        lay["d"] = scen.r3(lay["xi"] * 0.1)
+        lay["gamma"] = 1.0
+        f = scn["drive"]["field"]
+        f["B"] = scen.r3(f["B"] * 0.3)
+        screening = True
+    else:
+        scn = scen.gen_physics(
+            rnd,
+            screening=screening,
+            steps=(3, 12),
+            dt_choices=[1e-3, 0.01, 0.05],
+            n_terminals=rnd.choice([0, 2, 3, 4, 4]),
+            field_kinds=("const", "ramp", "pw", "sin"),
+            size=rnd.choice(["small", "medium"]),
+        )
     scn["max_screen_iters"] = 1500  # bounded: 16 threads pinned to one core are slow
     cur = scn["drive"]["currents"]
     if cur is not None and cur["kind"] == "const" and rnd.random() < 0.6:
@@ -65,6 +80,9 @@ def gen(seed, idx, tier):
         variants[2]["threads"] = 16
         variants[2]["affinity"] = [0]
     mode = "fresh" if rnd.random() < 0.2 else "inproc"
+    if large:
+        mode = "inproc"
+        variants = variants[:3]
     if mode == "inproc":
         # 16 workers share 16 cores: keep the in-process members to a few threads each
         for v in variants:
